@@ -7,8 +7,10 @@
       end of stream: timeout if the channel was not closed, count check `received == total`, metadata must carry
       `last_included`, `SnapshotAssembler::finalize` = flush + rename of the temp file to `<prefix><index>-<term>.tar.gz`
       (d-engine-core/src/state_machine_handler/snapshot_assembler.rs);
-    * `apply_snapshot_stream_from_leader`: process the stream, THEN decompress the finalized file, then
-      `StateMachine::apply_snapshot_from_file` (state := snapshot, last_applied := label).
+    * the archive check: the assembled temp file is unpacked before `finalize` (since /repo 814e6ba; before, the
+      finalized file was unpacked afterwards — F33);
+    * `apply_snapshot_stream_from_leader`: process the stream, then `StateMachine::apply_snapshot_from_file` on the
+      unpacked directory (state := snapshot, last_applied := label).
   Chunk payloads are symbolic: `(piece index, pristine?)`; the assembled file is the list of payloads written.
   The archive unpacks iff its first `n` payloads are the pristine pieces 0..n-1 in order (a gzip member followed by
   trailing bytes still unpacks; a truncated or altered one does not) — observed on the real code by the family.
@@ -161,23 +163,28 @@ inductive Res where
   | err (e : Err)
 deriving Repr, DecidableEq
 
-/-- `apply_snapshot_stream_from_leader` on a follower; `n` = number of pieces of the genuine archive. -/
+/-- `apply_snapshot_stream_from_leader` on a follower; `n` = number of pieces of the genuine archive.
+    Since /repo 814e6ba the assembled temp file is unpacked (validated) BEFORE `finalize` renames it; before that fix the
+    rename came first and a failed unpack left a final snapshot file behind (F33). -/
 def receive (f : Follower) (n : Nat) (cs : List Chunk) (e : End) : Follower × Res × List Ack :=
   match processStream cs e with
   | .err er acks => ({ f with part := true }, .err er, acks)      -- temp file stays behind; nothing else touched
   | .ok label content acks =>
-    let f1 : Follower := { f with finals := upsert f.finals label (.toks content), part := false }   -- rename
-    if archiveOk n content then ({ f1 with sm := .snapshot label }, .ok, acks)
-    else (f1, .err .archive, acks)                                 -- decompress fails AFTER finalize
+    if archiveOk n content then
+      -- unpack ok → rename → state machine applies the unpacked directory
+      ({ sm := .snapshot label, finals := upsert f.finals label (.toks content), part := false }, .ok, acks)
+    else ({ f with part := true }, .err .archive, acks)           -- unpack of the temp file fails: no rename
 
 /-- Process-crash points of `apply_snapshot_stream_from_leader` (the rename in `finalize` is atomic; the temp file is
-    flushed before it): before anything, while assembling (temp file only), after `finalize` (complete final file, state
-    not yet replaced), after the state machine applied the snapshot. -/
+    flushed before it): before anything, while assembling / validating (temp file only), after `finalize` (complete,
+    validated final file, state not yet replaced), after the state machine applied the snapshot. -/
 def crashStates (f : Follower) (n : Nat) (cs : List Chunk) (e : End) : List Follower :=
   match processStream cs e with
   | .err _ _ => [f, { f with part := true }]
   | .ok label content _ =>
-    let f1 : Follower := { f with finals := upsert f.finals label (.toks content), part := false }
-    [f, { f with part := true }, f1] ++ (if archiveOk n content then [{ f1 with sm := .snapshot label }] else [])
+    if archiveOk n content then
+      let f1 : Follower := { f with finals := upsert f.finals label (.toks content), part := false }
+      [f, { f with part := true }, f1, { f1 with sm := .snapshot label }]
+    else [f, { f with part := true }]
 
 end DEngine.SnapStream
